@@ -181,3 +181,95 @@ def random_programs(cls, n, seed, threads=3, maxops=3):
                 break
         out.append('P %s_rnd%d_%d %s | %s %s' % (cls, seed, k, cls, ' | '.join(ths), fin(cls)))
     return out
+
+
+# ---- systematic generation: scripts and their cross products -------------------------------------
+class G:
+    """guard-number allocator for one program"""
+    def __init__(self):
+        self.n = 0
+
+    def new(self):
+        self.n += 1
+        return self.n
+
+
+def script(name, g, lock=1):
+    """one thread's operation sequence; every grant it takes is released at the end"""
+    a = g.new
+    if name in MODES:
+        k = a()
+        return '%s:%s%d:%d U:%s%d' % (name, PRE[name], k, lock, PRE[name], k)
+    if name == 'UPG':
+        i, x = a(), a()
+        return 'SIX:i%d:%d UP:i%d:x%d U:x%d U:i%d' % (i, lock, i, x, x, i)
+    if name == 'DNG':
+        x, i = a(), a()
+        return 'X:x%d:%d DN:x%d:i%d U:i%d U:x%d' % (x, lock, x, i, i, x)
+    if name == 'UPDN':
+        i, x, j = a(), a(), a()
+        return 'SIX:i%d:%d UP:i%d:x%d DN:x%d:i%d U:i%d U:x%d U:i%d' % (i, lock, i, x, x, j, j, x, i)
+    if name == 'DNUP':
+        x, i, y = a(), a(), a()
+        return 'X:x%d:%d DN:x%d:i%d UP:i%d:x%d U:x%d U:i%d U:x%d' % (x, lock, x, i, i, y, y, i, x)
+    if name == 'XS':
+        x, s = a(), a()
+        return 'X:x%d:%d U:x%d S:s%d:%d U:s%d' % (x, lock, x, s, lock, s)
+    if name == 'SX':
+        s, x = a(), a()
+        return 'S:s%d:%d U:s%d X:x%d:%d U:x%d' % (s, lock, s, x, lock, x)
+    # OptimisticLock only
+    if name == 'GVV':
+        o = a()
+        return 'GV:o%d:%d VV:o%d VV:o%d' % (o, lock, o, o)
+    if name in ('GTS', 'GTI', 'GTX'):
+        o, h = a(), a()
+        op, pre = {'GTS': ('TS', 's'), 'GTI': ('TI', 'i'), 'GTX': ('TX', 'x')}[name]
+        return 'GV:o%d:%d %s:o%d:%s%d U:%s%d VV:o%d' % (o, lock, op, o, pre, h, pre, h, o)
+    if name == 'GTXX':
+        o, h, h2 = a(), a(), a()
+        return 'GV:o%d:%d TX:o%d:x%d XV:x%d U:x%d TX:o%d:x%d U:x%d' % (o, lock, o, h, h, h, o, h2, h2)
+    if name == 'PRV':
+        c = a()
+        return 'PR:c%d:%d CV:c%d U:c%d' % (c, lock, c, c)
+    if name == 'XSV':
+        x = a()
+        return 'X:x%d:%d SV:x%d:%d U:x%d' % (x, lock, x, 1000 + x, x)
+    if name == 'XSV0':   # republish the version the section started from
+        x = a()
+        return 'X:x%d:%d SV:x%d:0 U:x%d' % (x, lock, x, x)
+    if name == 'GTIUP':
+        o, i, x = a(), a(), a()
+        return 'GV:o%d:%d TI:o%d:i%d UP:i%d:x%d XV:x%d U:x%d U:i%d' % (o, lock, o, i, i, x, x, x, i)
+    raise ValueError(name)
+
+
+COMMON_SCRIPTS = ('S', 'SIX', 'X', 'UPG', 'DNG', 'UPDN', 'DNUP', 'XS')
+OPT_SCRIPTS = ('GVV', 'GTS', 'GTI', 'GTX', 'PRV', 'XSV', 'GTIUP')
+
+
+def cross(cls, sets, tag='x', final=True):
+    """one program per combination of scripts (one per thread); unordered when all sets are equal"""
+    out = []
+    seen = set()
+    for combo in itertools.product(*sets):
+        key = tuple(sorted(combo)) if all(s == sets[0] for s in sets) else combo
+        if key in seen:
+            continue
+        seen.add(key)
+        g = G()
+        ths = [script(n, g) for n in combo]
+        if g.n > 10:
+            continue
+        out.append('P %s_%s_%s %s | %s %s' % (cls, tag, '-'.join(combo), cls, ' | '.join(ths), fin(cls) if final else ''))
+    return out
+
+
+def cross2(cls, a=None, b=None, tag='x2'):
+    a = a or COMMON_SCRIPTS
+    b = b or a
+    return cross(cls, [tuple(a), tuple(b)], tag)
+
+
+def cross3(cls, a, b, c, tag='x3'):
+    return cross(cls, [tuple(a), tuple(b), tuple(c)], tag)
